@@ -390,3 +390,52 @@ func VerifHandleDeletePoints() {
 		vassert("invalid-delete-never-reaches-the-cluster-layer", c.calls == 0)
 	}
 }
+
+// C18 / C16: POST /collections. Only a request with a well-formed id and a schema that passes
+// validation reaches the cluster layer, as a collection of the caller with the caller's active
+// plan; the outcomes of the cluster layer map to 200 / 403 / 409 / 500.
+func VerifHandleCreateCollection() {
+	c := verifNewCluster()
+	id := []string{"abc", "ab", "mycollection1", "has space", "UPPER", "averyveryverylongcollectionname1"}[nondetIntRange(0, 5)]
+	idOK := id == "abc" || id == "mycollection1"
+	schema := models.IndexSchema{}
+	schemaOK := true
+	switch nondetIntRange(0, 3) {
+	case 0:
+		schema["price"] = models.IndexSchemaValue{Type: models.IndexTypeInteger}
+	case 1:
+		schema["vec"] = models.IndexSchemaValue{Type: models.IndexTypeVectorVamana, VectorVamana: &models.IndexVectorVamanaParameters{VectorSize: 2, DistanceMetric: models.DistanceEuclidean, SearchSize: 75, DegreeBound: 64, Alpha: 1.2}}
+	case 2: // parameters missing
+		schema["vec"] = models.IndexSchemaValue{Type: models.IndexTypeVectorVamana}
+		schemaOK = false
+	case 3: // unknown index type
+		schema["x"] = models.IndexSchemaValue{Type: "nosuchindex"}
+		schemaOK = false
+	}
+	sdbh := &SemaDBHandlers{}
+	plans := map[string]models.UserPlan{"basic": {Name: "basic", MaxCollections: 1, MaxCollectionPointCount: 100, MaxPointSize: 100}}
+	body := verifEncode(CreateCollectionRequest{Id: id, IndexSchema: schema})
+	r := &http.Request{Method: "POST", Header: http.Header{}, Body: verifBody{bytes.NewReader(body)}, ContentLength: int64(len(body))}
+	r.Header["Content-Type"] = []string{"application/msgpack"}
+	r.Header["X-User-Id"] = []string{"alice"}
+	r.Header["X-Plan-Id"] = []string{"basic"}
+	w := &verifWriter{hdr: http.Header{}}
+	middleware.AppHeaderMiddleware(plans, http.HandlerFunc(sdbh.HandleCreateCollection)).ServeHTTP(w, r)
+	vcover("reached")
+	vassert("exactly-one-status-written", w.headerCalls == 1)
+	if c.calls > 0 {
+		vcover("cluster-reached")
+		vassert("only-well-formed-collections-reach-the-cluster-layer", idOK && schemaOK)
+		col := c.created
+		vassert("collection-is-created-for-the-caller-with-the-active-plan", col != nil && col.UserId == "alice" && col.Id == id && col.UserPlan.Name == "basic")
+		vassert("schema-passed-validation", col != nil && col.IndexSchema.Validate() == nil)
+		vassert("cluster-outcome-is-mapped-to-a-status", w.status == 200 || w.status == 403 || w.status == 409 || w.status == 500)
+	} else {
+		vassert("refused-create-is-answered-4xx", w.status >= 400 && w.status < 500)
+	}
+	if !idOK || !schemaOK {
+		vassert("malformed-create-never-reaches-the-cluster-layer", c.calls == 0)
+	} else {
+		vassert("well-formed-create-reaches-the-cluster-layer", c.calls == 1)
+	}
+}
